@@ -9,6 +9,7 @@ def dispatch (prop : String) (ins outs : List String) : Verdict :=
   match prop with
   | "C05" => C05.run ins outs
   | "C07" => C07.run ins outs
+  | "C18" => C18.run ins outs
   | _ => .bad ("unknown property " ++ prop)
 
 partial def loop (h : IO.FS.Stream) (out : IO.FS.Stream) (n : Nat) : IO Unit := do
